@@ -2619,9 +2619,17 @@ class FuncMod(ValueFunc):
             return NULL
 
         if a.isInt() and b.isInt():
+            if b.value == 0:
+                raise CklRuntimeError(
+                    ValueString("ERROR"), "divide by zero", pos
+                )
             return ValueInt(a.value % b.value)
 
         if a.isNumerical() and b.isNumerical():
+            if b.asDecimal().value == 0.0:
+                raise CklRuntimeError(
+                    ValueString("ERROR"), "divide by zero", pos
+                )
             return ValueDecimal(a.asDecimal().value % b.asDecimal().value)
 
         raise CklRuntimeError(
